@@ -60,7 +60,7 @@ class C14(Prop):
             scen.append((src, dst, keyups, plan, extra, c, a,
                          (f"modrun {rng.randrange(1, 10**6)} {c} {a} {keyups} {frames} {extra} {len(src)} {codes(src)} {len(dst)} {codes(dst)} ".replace("  ", " ")
                           + " ".join(f"{f} {e}" for f, e in plan)).strip()))
-        out = ctx.run_impl(exe, [s[-1] for s in scen], "modulator", timeout=1800)
+        out = ctx.run_impl(exe, [s[-1] for s in scen], "modulator", timeout=600)
         for (src, dst, keyups, frames, extra, c, a, ln), o in zip(scen, out):
             ctx.count(ln, nontrivial=any(f > 0 for f, _ in frames))
             ctx.stat(f"consumer{c}:audio{a}")
@@ -77,6 +77,123 @@ class C14(Prop):
                 ctx.violate(f"modulator:{key}", f"M17Modulator(src={src!r}, dst={dst!r}), {keyups} key-up(s) with (full blocks, extra samples) = {frames}, consumer mode {c}: {bad}",
                             {"stream": "modulator", "ops": [ln], "output_bytes": len(data)})
         ctx.sample({"op": scen[0][-1], "reply": out[0][:120] + " ..."})
+        self.long_keyup(ctx, exe, dec)
+        self.api_sequences(ctx, exe, dec)
+
+    def api_sequences(self, ctx, exe, dec):
+        """callsigns changed through source() / dest() between key-ups of one modulator: every key-up must carry the LSF (frame and LICH) of the
+        callsigns in force, with its own CRC"""
+        rng = ctx.rng
+        g = decgen.Gen(rng)
+        for trial in range(4 if ctx.tier == "quick" else 60):
+            src, dst = g.rand_call(), (g.rand_call() if trial % 2 else "")
+            K = rng.randrange(3, 7)
+            steps, cur = [], []
+            s_, d_ = src, dst
+            for k in range(K):
+                kind = 0 if k == 0 else rng.choice([1, 2, 2, 0])
+                call = ""
+                if kind == 1:
+                    call = g.rand_call(); s_ = call
+                if kind == 2:
+                    call = g.rand_call() if rng.random() < 0.8 else ""; d_ = call
+                steps.append((kind, call)); cur.append((s_, d_))
+            frames, extra = 7, rng.randrange(0, 320)
+            ln = (f"modapi {rng.randrange(1, 10**6)} {frames} {extra} {len(src)} {codes(src)} {len(dst)} {codes(dst)} {K} ".replace("  ", " ")
+                  + " ".join(f"{kind} {len(c)} {codes(c)}".strip() for kind, c in steps))
+            ln = " ".join(ln.split())
+            o = ctx.run_impl(exe, [ln], "modulator-api", timeout=600)[0]
+            ctx.count(ln, nontrivial=True)
+            ctx.stat("api:sequences")
+            if " | " not in o:
+                continue
+            head, body = o.split(" | ")
+            data = bytes(int(x) for x in body.split())
+            per = 96 + 48 * (frames + 1)
+            problem = None
+            if head.split() != ["1", "0"]:
+                problem = f"did not end IDLE cleanly ({head})"
+            elif len(data) != K * per:
+                problem = f"stream length {len(data)}, expected {K * per}"
+            else:
+                lines = []
+                for k in range(K):
+                    seg = data[k * per:(k + 1) * per]
+                    lines.append("dec_frame 0 1 " + " ".join(map(str, S.soft(S.bits_of(seg[50:96]), 7))))
+                    for f in range(frames + 1):
+                        lines.append("dec_frame 1 1 " + " ".join(map(str, S.soft(S.bits_of(seg[96 + 48 * f + 2:96 + 48 * (f + 1)]), 7))))
+                rep = ctx.run_impl(dec, ["dec_new"] + lines, "modulator-decode")[1:]
+                i = 0
+                for k in range(K):
+                    s_, d_ = cur[k]
+                    lsf = S.make_lsf(d_, s_, 0x0005, bytes(14), 0)
+                    seg = data[k * per:(k + 1) * per]
+                    r = decgen.parse_reply(rep[i]); i += 1
+                    ctx.evaluations += 1
+                    if not r or not r["calls"] or r["calls"][0]["type"] != 0:
+                        problem = f"key-up {k} (after {steps[k]}): the link setup frame does not decode to a CRC-valid LSF"; break
+                    if r["calls"][0]["bytes"] != list(lsf):
+                        problem = f"key-up {k} (after {steps[k]}): LSF {r['calls'][0]['bytes'][:12]} is not that of src={s_!r} dst={d_!r}"; break
+                    for f in range(frames + 1):
+                        r = decgen.parse_reply(rep[i]); i += 1
+                        fr = seg[96 + 48 * f:96 + 48 * (f + 1)]
+                        if not r or not r["calls"] or r["calls"][0]["type"] != 2:
+                            problem = f"key-up {k} frame {f}: not decodable"; break
+                        pl = r["calls"][0]["bytes"]
+                        want = bytes([0xFF, 0x5D]) + S.pack(S.stream_frame_bits(lsf, f % 6, (pl[0] << 8) | pl[1], bytes(pl[2:])))
+                        if fr != want:
+                            problem = f"key-up {k} (after {steps[k]}) frame {f}: LICH/encoding is not that of the LSF in force (src={s_!r} dst={d_!r})"; break
+                    if problem:
+                        break
+            if problem:
+                ctx.violate("modulator-api:" + problem.split(":")[0][:30], f"M17Modulator({src!r},{dst!r}) with callsign changes {steps}: {problem}",
+                            {"stream": "modulator-api", "ops": [ln]})
+
+    def long_keyup(self, ctx, exe, dec):
+        """one key-up longer than 32768 stream frames: the 15-bit frame number wraps while the LICH fragment index must keep cycling 0..5
+        (32768 is not a multiple of 6); frames around the wrap, the first ones and a random sample are decoded and re-encoded"""
+        rng = ctx.rng
+        nblocks = 32775 if ctx.tier == "quick" else 65550
+        src, dst = "W1AW", "N0CALL"
+        ln = f"modrun {rng.randrange(1, 10**6)} 0 0 1 {nblocks} 7 {len(src)} {codes(src)} {len(dst)} {codes(dst)}"
+        o = ctx.run_impl(exe, [ln], "modulator-long", timeout=900)[0]
+        ctx.count(ln, nontrivial=True)
+        ctx.stat("long-keyup:frames", nblocks + 1)
+        if " | " not in o:
+            return
+        head, body = o.split(" | ")
+        data = bytes(int(x) for x in body.split())
+        want_len = 96 + 48 * (nblocks + 1)
+        def bad(msg):
+            ctx.violate("modulator-long:" + msg.split(":")[0][:40], f"M17Modulator key-up of {nblocks} blocks (frame counter wraps at 0x8000): {msg}",
+                        {"stream": "modulator-long", "ops": [ln], "output_bytes": len(data)})
+        if head.split() != ["1", "0"]:
+            return bad(f"did not end IDLE cleanly (state/exception {head})")
+        if len(data) != want_len:
+            return bad(f"stream length: {len(data)} bytes, expected {want_len}")
+        lsf = S.make_lsf(dst, src, 0x0005, bytes(14), 0)
+        idx = sorted(set(list(range(0, 8)) + list(range(32755, min(nblocks + 1, 32790))) + list(range(nblocks - 5, nblocks + 1))
+                         + [rng.randrange(nblocks) for _ in range(40)] + ([65530 + i for i in range(20)] if nblocks > 65550 - 1 else [])))
+        idx = [f for f in idx if f <= nblocks]
+        lines = ["dec_new", "dec_frame 0 1 " + " ".join(map(str, S.soft(S.bits_of(data[50:96]), 7)))]
+        for f in idx:
+            fr = data[96 + 48 * f:96 + 48 * (f + 1)]
+            lines.append("dec_frame 1 1 " + " ".join(map(str, S.soft(S.bits_of(fr[2:]), 7))))
+        rep = ctx.run_impl(dec, lines, "modulator-decode")
+        for f, a in zip(idx, rep[2:]):
+            ctx.evaluations += 1
+            fr = data[96 + 48 * f:96 + 48 * (f + 1)]
+            r = decgen.parse_reply(a)
+            if not r or not r["calls"] or r["calls"][0]["type"] != 2:
+                return bad(f"stream frame {f}: not decodable")
+            pl = r["calls"][0]["bytes"]
+            fn = (pl[0] << 8) | pl[1]
+            want_fn = (f % 0x8000) | (0x8000 if f == nblocks else 0)
+            if fn != want_fn:
+                return bad(f"frame numbering: frame {f} carries frame number {fn:#06x}, expected {want_fn:#06x}")
+            want = bytes([0xFF, 0x5D]) + S.pack(S.stream_frame_bits(lsf, f % 6, fn, bytes(pl[2:])))
+            if fr != want:
+                return bad(f"frame encoding: stream frame {f} (FN {fn:#06x}) is not the specification's encoding with LICH fragment {f % 6} (the LICH cycle must not restart at the frame-counter wrap)")
 
     def judge(self, ctx, dec, data, src, dst, keyups, frames, extra):
         """grammar + specification re-encoding; returns a description of the first problem or None"""
